@@ -32,7 +32,7 @@ class Clock:
 
 
 class CorrSim:
-    def __init__(self, ttl_resp_q=15 * Q, ttl_deliv_q=100 * Q):
+    def __init__(self, ttl_resp_q=15 * Q, ttl_deliv_q=100 * Q, directory=''):
         import aiosmpplib.correlator as cm
         import aiosmpplib.esme as em
         from aiosmpplib import ESME
@@ -79,10 +79,19 @@ class CorrSim:
                 return 1.0
         self.loop = asyncio.new_event_loop()
         asyncio.set_event_loop(self.loop)
-        self.corr = cm.SimpleCorrelator('c', max_ttl_response=ttl_resp_q / Q, max_ttl_delivery=ttl_deliv_q / Q)
+        self._ckw = dict(directory=directory, max_ttl_response=ttl_resp_q / Q, max_ttl_delivery=ttl_deliv_q / Q)
+        self.corr = cm.SimpleCorrelator('c', **self._ckw)
         self.esme = ESME('h', 1, 'sys', 'pw', hook=Hook(), correlator=self.corr, throttle_handler=Thr(),
                          log_handler=logging.NullHandler(), log_level='CRITICAL')
         self.first_line = 'c.new %d %d' % (ttl_resp_q, ttl_deliv_q)
+
+    def reload(self):
+        """a restart: a new correlator instance on the same directory takes over"""
+        old = self.corr
+        self.corr = self.cm.SimpleCorrelator('c', **self._ckw)
+        self.corr.hook = old.hook
+        self.corr.client_id = getattr(old, 'client_id', '')
+        self.esme.correlator = self.corr
 
     def close(self):
         self.cm.time = self._saved_time
